@@ -619,6 +619,11 @@ class Peer:
         if not new_routes and self.neighbor.rib.outgoing.pending():
             log.debug(lazymsg('peer.update.generator.creating'), self.id())
             new_routes = self.proto.new_update_generator(include_withdraw)
+        elif not new_routes:
+            # nothing is waiting to be sent: whoever waits for "flushed to the wire" has what it waits for. The events
+            # were only set when a generator ran dry, so a `sync` command whose route changed nothing for this peer (a
+            # duplicate, a family the peer does not have) was never answered, and the commands behind it neither
+            self.neighbor.rib.outgoing.fire_flush_callbacks()
 
         if new_routes:
             try:
